@@ -111,25 +111,27 @@ type pkgT struct {
 
 var groupPool = []string{"alpha", "beta", "gamma2", "δelta", "_x", "Eps", "zeta", "all"}
 
-// rulesText renders rules file number `fileNo` (0 or 1) at message version v; bodies chosen per group.
+// groupBody: the rules of one group at message version v. Groups never match the same AST node (the engine
+// reports only the first matching rule per node, so only then is "reports of the enabled groups" = "reports of
+// an engine that loaded only the enabled groups").
 func groupBody(name string, v int) string {
 	tag := fmt.Sprintf("%s.v%d", name, v)
 	switch name {
 	case "alpha":
-		return "\tm.Match(`probe($x)`).Report(`" + tag + " sees $x`)\n"
+		return "\tm.Match(`pa1($x)`).Report(`" + tag + " sees $x`)\n"
 	case "beta":
-		return "\tm.Match(`foo($x)`).Report(`" + tag + " $x`).Suggest(`bar($x)`)\n"
+		return "\tm.Match(`pb1($x)`).Report(`" + tag + " $x`).Suggest(`bar($x)`)\n"
 	case "gamma2":
 		return "\tm.Match(`$x + $y`).Report(`" + tag + " sum`).At(m[\"y\"])\n" +
-			"\tm.Match(`probe($x, $y)`).Suggest(`probe($y, $x)`)\n"
+			"\tm.Match(`pg2($x, $y)`).Suggest(`pg2($y, $x)`)\n"
 	case "δelta":
-		return "\tm.Match(`foo($x)`).Where(m.GoVersion().GreaterEqThan(\"1.18\")).Report(`" + tag + " new go`)\n"
+		return "\tm.Match(`pd1($x)`).Where(m.GoVersion().GreaterEqThan(\"1.18\")).Report(`" + tag + " new go`)\n"
 	case "_x":
 		return "\tm.MatchComment(`TODO`).Report(`" + tag + " todo comment`)\n"
 	case "Eps":
 		return "\tm.Match(`$x == $x`).Report(`" + tag + " self compare`).Suggest(`true`)\n"
 	case "zeta":
-		return "\tm.Match(`foo($x)`, `probe($x)`).Where(m[\"x\"].Const).Report(`" + tag + " const arg \"$x\" (100%)`)\n"
+		return "\tm.Match(`pz1($x)`, `pz2($x, $_)`).Where(m[\"x\"].Const).Report(`" + tag + " const arg \"$x\" (100%)`)\n"
 	case "all":
 		return "\tm.Match(`return $x`).Report(`" + tag + " ret`)\n"
 	}
@@ -145,41 +147,50 @@ func rulesText(groups []string, v int) string {
 	return sb.String()
 }
 
+const decls = `
+func pa1(args ...interface{}) {}
+func pb1(x interface{}) interface{} { return x }
+func pg2(a, b interface{})   {}
+func pd1(x int) int          { return x }
+func pz1(x interface{})      {}
+func pz2(x, y interface{})   {}
+`
+
 var targets = map[string][]string{
 	"pa": {`package pa
-
-func probe(args ...interface{}) {}
-func foo(x int) int          { return x }
-
+` + decls + `
 // TODO: first
 func f(a, b int) int {
-	probe(1)
-	probe("s", a)
-	foo(2)
-	_ = foo(3) + foo(b)
+	pa1(1)
+	pa1("s")
+	pg2("s", a)
+	pb1(2)
+	_ = pd1(3) + pd1(b)
+	pz1(7)
+	pz1(a)
+	pz2("k", b)
 	if a == a {
-		return foo(a + b)
+		return pd1(a + b)
 	}
 	return 0
 }
 `},
 	"pb": {`package pb
-
-func probe(args ...interface{}) {}
-
+` + decls + `
 func g(s string) string {
-	probe(s)
+	pa1(s)
 	/* TODO block */
-	probe(s + "x")
+	pa1(s + "x")
+	pb1(s + s)
 	return s + s
 }
 `, `package pb
 
-func foo(x string) string { return x }
-
 func h() bool {
-	foo("lit")
-	probe(foo("q"), 2)
+	pb1("lit")
+	pg2(pb1("q"), 2)
+	pz1("c")
+	pd1(4)
 	return "a" == "a"
 }
 `},
@@ -311,27 +322,27 @@ func pick(rng *rand.Rand, xs []string) string { return xs[rng.Intn(len(xs))] }
 
 // nameList renders a random -enable / -disable value over the given group names.
 func nameList(rng *rand.Rand, groups []string, forEnable bool) string {
-	switch rng.Intn(10) {
-	case 0:
+	switch rng.Intn(20) {
+	case 0, 1, 2, 3, 4, 5:
 		if forEnable {
 			return "<all>"
 		}
 		return ""
-	case 1:
+	case 6:
 		return ""
-	case 2:
+	case 7, 8:
 		if forEnable {
-			return pick(rng, []string{" <all>", "<all> ", "<all>,alpha", "<ALL>", "<all>,", ",<all>"})
+			return pick(rng, []string{" <all>", "<all> ", "<all>,alpha", "<ALL>", "<all>,", ",<all>", "<all>,<all>"})
 		}
-		return pick(rng, []string{",", " , ", "<all>"})
+		return pick(rng, []string{",", " , ", "<all>", " "})
 	}
-	n := rng.Intn(4) + 1
+	n := rng.Intn(5) + 1
 	var parts []string
 	for i := 0; i < n; i++ {
 		var name string
-		switch rng.Intn(8) {
+		switch rng.Intn(10) {
 		case 0:
-			name = pick(rng, []string{"unknown", "Alpha", "alph", "alphaa", "beta ", "x/alpha", "al pha", "δ", "<all>"})
+			name = pick(rng, []string{"unknown", "Alpha", "alph", "alphaa", "x/alpha", "al pha", "δ", "<all>", "beta\x00"})
 		case 1:
 			name = ""
 		default:
@@ -418,13 +429,7 @@ func main() {
 		}
 		sc.Mode = mode
 		fl := Flags{Enable: nameList(rng, groups, true), Disable: nameList(rng, groups, false)}
-		if rng.Intn(3) == 0 {
-			fl.Enable = "<all>"
-		}
-		if rng.Intn(3) == 0 {
-			fl.Disable = ""
-		}
-		fl.Go = pick(rng, []string{"", "", "", "1.16", "1.18", "1.22", "go1.5", "1", "abc"})
+		fl.Go = pick(rng, []string{"", "", "", "", "", "1.16", "1.17", "1.18", "1.22", "1.20", "1.18", "", pick(rng, []string{"go1.5", "1", "abc"})})
 		fl.Debug = rng.Intn(2) == 0
 		if mode == "rules" || mode == "rules+e" {
 			var parts []string
@@ -440,7 +445,7 @@ func main() {
 				fl.Rules += "," + filepath.Join(dir, "missing.go")
 			}
 		}
-		eRule := "m.Match(`probe($*_)`)"
+		eRule := "m.Match(`pa1($*_)`)"
 		if mode == "e" || mode == "rules+e" {
 			fl.E = eRule
 		}
